@@ -40,6 +40,7 @@ class SimProcess:
         assert d is not None
         actor_name = d.next_worker_actor()
         if actor_name is None:
+            d.pool_exhausted = True
             raise OSError("simulated process table is full")
         sim = d.sim
         self.actor = sim.actor(actor_name)
@@ -113,7 +114,8 @@ class Deployment:
         self.worker_procs: dict[str, SimProcess] = {}
         self._patched: list[tuple[Any, str, Any]] = []
         for rn, n_w in self.ppr.items():
-            self.worker_pool += [f"{rn}w{i + 1}" for i in range(n_w + 4)]
+            self.worker_pool += [f"{rn}w{i + 1}" for i in range(n_w + 8)]
+        self.pool_exhausted = False
         base_conf = {"cached_status_time": 0.0, "runner_loop_sleep_time_sec": 0.01, "invocation_wait_results_sleep_time_sec": 0.01, "max_threads": 2}
         base_conf.update(conf or {})
         self.w = World(seed, stack, self.runner_names + self.worker_pool + self.clients, conf=base_conf, **world_kw)
